@@ -64,9 +64,13 @@ def specAccepts (c : Cfg) : Bool :=
     && c.domainSets.all (· ≠ "") && decide c.domainSets.Nodup
     && c.rules.all (fun (d, f) => (d = "" || c.domainSets.contains d) && (f = "" || utags.contains f))
 
+/-- `loadRule` accepts the rule's `reject` value: the negation of `cfg.Reject < 0 || cfg.Reject > 15` (tied to the
+    source by translation, `Lemmas/TranslatedC10.lean`) -/
+@[simp] def rejectInRange (reject : Nat) : Bool := decide (reject ≤ 15)
+
 /-- the whole start-up decision: the tag tables, plus `loadRule`'s range check of `reject` (the header's rcode field
     has 4 bits) and the decoder's refusal of a second YAML document -/
-def acceptsFull (c : Cfg) : Bool := accepts c && c.rejects.all (· ≤ 15) && !c.multiDoc
+def acceptsFull (c : Cfg) : Bool := accepts c && c.rejects.all rejectInRange && !c.multiDoc
 
 /-- … and what the property asks for: a reject rule answers with ITS rcode (so the value must be an rcode), and
     nothing in the configuration is silently ignored -/
